@@ -23,9 +23,9 @@ import (
 
 type nopLogger struct{}
 
-func (nopLogger) Debug(string, ...interface{})   {}
-func (nopLogger) Info(string, ...interface{})    {}
-func (nopLogger) Error(string, ...interface{})   {}
+func (nopLogger) Debug(string, ...interface{})         {}
+func (nopLogger) Info(string, ...interface{})          {}
+func (nopLogger) Error(string, ...interface{})         {}
 func (l nopLogger) With(...interface{}) rttypes.Logger { return l }
 
 // ---------------------------------------------------------------------------
